@@ -1,4 +1,5 @@
 import TrionModel.Model.Parse
+import TrionModel.Model.ParseIter
 import TrionModel.Spec.Render
 import TrionModel.Driver.Util
 /-! Line protocol for the parser model and the rendering specification.
@@ -12,6 +13,8 @@ import TrionModel.Driver.Util
         `E <line> <col> tok <kind> <line> <col>` / `E <line> <col> exp <expect> <have>`
       with `<arg>` = `#<int>` `i<hex>` `s<hex>` `(<op> <arg> <arg>)` `(neg <arg>)` `(not <arg>)` `(addr <arg>)`
       `(seq <arg>*)` `(fn <hexname> <arg>*)`
+* `parse calls <n> <endLine> <endCol> <err> <tok>*` → the results of `n` successive `Parser::next` calls of the
+  call-by-call model (`Model/ParseIter.lean`), joined by ` | `: an element, an error, or `none`; `PANIC`
 * `parse render <arg>`                      → `Render.arg 0` as token codes
 * `parse rstmt <L|D|I> <hexname> <arg>*`    → `Render.elemVal` as token codes
 * `parse wf <arg>`                          → `1`/`0`: the tree satisfies `Arg.wf` (Bool version)
@@ -208,7 +211,20 @@ partial def wfArgs : Args → Bool
   | .cons a as => wfArg a && wfArgs as
 end
 
+/-- one result of `Parser::next` -/
+def showCall : Option (Except ParseErr Element) → String
+  | none => "none"
+  | some (.ok e) => showElem e
+  | some (.error e) => showErr e
+
 def handle : List String → String
+  | "calls" :: n :: el :: ec :: err :: toks =>
+    match n.toNat?, el.toNat?, ec.toNat?, errOf err, toks.mapM tokenOf with
+    | some n, some el, some ec, some err, some toks =>
+      match Parse.calls n (TState.init ⟨toks, err, el, ec⟩) with
+      | some (items, _) => if items.isEmpty then "-" else " | ".intercalate (items.map showCall)
+      | none => "PANIC"
+    | _, _, _, _, _ => "bad-op"
   | "toks" :: el :: ec :: err :: toks =>
     match el.toNat?, ec.toNat?, errOf err, toks.mapM tokenOf with
     | some el, some ec, some err, some toks => showOutcome (Parse.all ⟨toks, err, el, ec⟩)
